@@ -322,6 +322,24 @@ def struct_variants(s, defs, sizes=CONTAINER_SIZES, strlens=STRLENS, salt=0):
         for which in ([0], [1, 2], [3, 4, 5, 6, 7], list(range(8)) * 3):
             yield "unk%d" % len(which), {"f": dict(basev["f"]), "unk": unknown_bytes(which)}
             yield "zunk%d" % len(which), {"f": dict(zv["f"]), "unk": unknown_bytes(which)}
+    # recursive types: the same container type nested inside its own elements / values, several levels, every level non-empty
+    selfrefs = [f for f in defs[s]["fields"] if f["t"]["k"] in ("list", "set", "map") and
+                (f["t"].get("e") or f["t"].get("vt") or {}).get("s") == s and (f["t"].get("e") or f["t"].get("vt") or {}).get("ptr")]
+    if selfrefs:
+        def tree(level, salt2):
+            v = {"f": dict(zv["f"]), "unk": []}
+            for f in defs[s]["fields"]:
+                if f["t"]["k"] in GOW or f["t"]["k"] == "string":
+                    v["f"][f["key"]] = base_value(f["t"], defs, 1, salt2 + level)
+            if level > 0:
+                for f in selfrefs:
+                    kids = [{"p": 1, "v": tree(level - 1, salt2 * 3 + j + 1)} for j in range(2)]
+                    if f["t"]["k"] == "map":
+                        v["f"][f["key"]] = {"nil": False, "ents": [[key_n(f["t"]["kt"], j + level * 2, defs), kids[j]] for j in range(2)]}
+                    else:
+                        v["f"][f["key"]] = {"nil": False, "items": kids}
+            return v
+        yield "tree3", tree(3, salt)
     for f in defs[s]["fields"]:
         for i, v in enumerate(interesting(f["t"], defs, f["req"], sizes, strlens)):
             nv = {"f": dict(basev["f"]), "unk": basev["unk"]}
